@@ -132,6 +132,7 @@ type Gen struct {
 	// which is a known source of map-order dependent divergence).
 	FlipShardType bool
 	ltime         uint64
+	queue         []Cmd // commands that must follow the one just drawn
 }
 
 var (
@@ -364,7 +365,38 @@ type Builder struct {
 	Fn     func(g *Gen) Cmd
 }
 
+func (g *Gen) plainCreateDatabase(db string) Cmd {
+	v := &mproto.CreateDatabaseCommand{Name: proto.String(db), ReplicaNum: proto.Uint32(1),
+		RetentionPolicy: &mproto.RetentionPolicyInfo{Name: proto.String("rp0"), Duration: proto.Int64(0), ShardGroupDuration: proto.Int64(Hour), ReplicaN: proto.Uint32(1),
+			HotDuration: proto.Int64(0), WarmDuration: proto.Int64(0), IndexGroupDuration: proto.Int64(0)}}
+	return mk(mproto.Command_CreateDatabaseCommand, mproto.E_CreateDatabaseCommand_Command, v, "")
+}
+
+// orphanPtView returns a database that has a partition view but no catalogue entry (the
+// window between the two commands of the create-database handler).
+func (g *Gen) orphanPtView() string {
+	d := g.D()
+	var ks []string
+	for k := range d.PtView {
+		if d.Databases[k] == nil {
+			ks = append(ks, k)
+		}
+	}
+	if len(ks) == 0 {
+		return ""
+	}
+	sort.Strings(ks)
+	return ks[0]
+}
+
 func (g *Gen) CreateDataNode() Cmd {
+	// A node join while a partition view has no database yet makes CreateDataNode
+	// dereference a nil DatabaseInfo (expandDBPtView -> DBReplicaN): the state machine
+	// panics. That crash is reported separately (apply-panic); most of the time the
+	// generator closes the window first so that logs are not cut short by it.
+	if o := g.orphanPtView(); o != "" && g.p(0.9) {
+		return g.plainCreateDatabase(o)
+	}
 	h := pickS(g, hostPool)
 	role := ""
 	if g.p(0.15) {
@@ -392,6 +424,7 @@ func (g *Gen) CreateDatabase() Cmd {
 	if g.Safe && db != "" {
 		// the create-database handler first applies CreateDbPtViewCommand for the database
 		if _, ok := g.D().PtView[db]; !ok {
+			g.queue = append(g.queue, g.plainCreateDatabase(db))
 			return mk(mproto.Command_CreateDbPtViewCommand, mproto.E_CreateDbPtViewCommand_Command, &mproto.CreateDbPtViewCommand{DbName: proto.String(db), ReplicaNum: proto.Uint32(1)}, "before-create-database")
 		}
 	}
@@ -849,7 +882,17 @@ func (g *Gen) ReSharding() Cmd {
 	return mk(mproto.Command_ReShardingCommand, mproto.E_ReShardingCommand_Command, v, "")
 }
 
-func (g *Gen) ReplaceMergeShards() Cmd {
+// replaceMergeShardsOpt: the command is drawn only when at least one of its shard ids
+// exists; with none, ReplaceMergeShards indexes an empty slice and the state machine panics
+// (reported separately as apply-panic by drivers that send it).
+func (g *Gen) replaceMergeShardsOpt() (Cmd, bool) {
+	c, n := g.replaceMergeShards()
+	return c, n >= 1
+}
+
+func (g *Gen) ReplaceMergeShards() Cmd { c, _ := g.replaceMergeShards(); return c }
+
+func (g *Gen) replaceMergeShards() (Cmd, int) {
 	db, rp := g.dbrpWith(func(r *meta.RetentionPolicyInfo) bool { return len(r.ShardGroups) > 1 })
 	var ids []uint64
 	pt := uint32(0)
@@ -876,7 +919,7 @@ func (g *Gen) ReplaceMergeShards() Cmd {
 		}
 	}
 	v := &mproto.ReplaceMergeShardsCommand{Db: proto.String(db), Rp: proto.String(rp), PtId: proto.Uint32(pt), ShardId: ids}
-	return mk(mproto.Command_ReplaceMergeShardsCommand, mproto.E_ReplaceMergeShardsCommand_Command, v, "")
+	return mk(mproto.Command_ReplaceMergeShardsCommand, mproto.E_ReplaceMergeShardsCommand_Command, v, ""), len(ids)
 }
 
 func (g *Gen) CreateSubscription() Cmd {
@@ -1292,7 +1335,7 @@ var table = []entry{
 	{mproto.Command_UpdateIndexInfoTierCommand, 2, true, wrap((*Gen).UpdateIndexInfoTier)},
 	{mproto.Command_UpdateShardDownSampleInfoCommand, 2, true, wrap((*Gen).UpdateShardDownSampleInfo)},
 	{mproto.Command_ReShardingCommand, 2, true, wrap((*Gen).ReSharding)},
-	{mproto.Command_ReplaceMergeShardsCommand, 3, true, wrap((*Gen).ReplaceMergeShards)},
+	{mproto.Command_ReplaceMergeShardsCommand, 3, true, (*Gen).replaceMergeShardsOpt},
 	{mproto.Command_ExpandGroupsCommand, 2, true, wrap((*Gen).ExpandGroups)},
 	{mproto.Command_UpdateNodeStatusCommand, 3, true, wrap((*Gen).UpdateNodeStatus)},
 	{mproto.Command_SetNodeSegregateStatusCommand, 2, true, wrap((*Gen).SetNodeSegregateStatus)},
@@ -1346,6 +1389,11 @@ func Covered() []string {
 
 // Next draws one command. adminOnly restricts the draw to the administrative subset.
 func (g *Gen) Next(adminOnly bool) Cmd {
+	if len(g.queue) > 0 {
+		c := g.queue[0]
+		g.queue = g.queue[1:]
+		return c
+	}
 	total := 0
 	for _, e := range table {
 		if !adminOnly || e.admin {
